@@ -1,6 +1,7 @@
 package main
 
 import (
+	"fmt"
 	"go/constant"
 	"go/token"
 	"go/types"
@@ -208,13 +209,37 @@ func (w *Walker) reflectModel(name string, callee *ssa.Function, args []*Term, r
 // lookupDispatch: m[k] for a table whose keys are all constants and a symbolic k: the chain
 // if k == k1 {v1} else if k == k2 {v2} ... else absent (as tableLookup does for the literal form).
 func (w *Walker) lookupDispatch(m, k *Term, x *ssa.Lookup) (*Term, bool) {
-	if m.Op != "mapv" || k.IsConst() || len(m.Args) == 0 || len(m.Args) > 256 || !isIntType(k.Typ) {
+	if m.Op != "mapv" || k.IsConst() || len(m.Args) == 0 || len(m.Args) > 256 {
 		return nil, false
 	}
+	// keys: all integer constants (function codes), or all type descriptors (a table from field type to kind)
+	byType := true
 	for i := 0; i+1 < len(m.Args); i += 2 {
-		if !m.Args[i].IsConst() {
+		if m.Args[i].Op != "rtype" {
+			byType = false
+		}
+	}
+	if !byType {
+		if !isIntType(k.Typ) {
 			return nil, false
 		}
+		for i := 0; i+1 < len(m.Args); i += 2 {
+			if !m.Args[i].IsConst() {
+				return nil, false
+			}
+		}
+	} else if k.Op == "rtype" {
+		// both known: identical types
+		for i := 0; i+1 < len(m.Args); i += 2 {
+			if types.Identical(m.Args[i].Dyn, k.Dyn) {
+				if x.CommaOk {
+					return &Term{Op: "tuple", Args: []*Term{m.Args[i+1], mkBool(true)}, Typ: x.Type()}, true
+				}
+				return m.Args[i+1], true
+			}
+		}
+	}
+	for i := 0; i+1 < len(m.Args); i += 2 {
 		switch m.Args[i+1].Op {
 		case "closure", "rtype", "const":
 		default:
@@ -223,8 +248,18 @@ func (w *Walker) lookupDispatch(m, k *Term, x *ssa.Lookup) (*Term, bool) {
 	}
 	vt := elemType(m.Typ)
 	for i := 0; i+1 < len(m.Args); i += 2 {
-		cmp := w.binop(token.EQL, k, m.Args[i], types.Typ[types.Bool])
-		if w.decide(cmp) {
+		var hit bool
+		if byType {
+			// the same atom a comparison with a package-level type variable produces: eq(<descriptor>,<key>)
+			if w.RTypes == nil {
+				w.RTypes = map[string]types.Type{}
+			}
+			w.RTypes[m.Args[i].String()] = m.Args[i].Dyn
+			hit = w.boolAtom("eq("+m.Args[i].String()+","+k.String()+")", nil)
+		} else {
+			hit = w.decide(w.binop(token.EQL, k, m.Args[i], types.Typ[types.Bool]))
+		}
+		if hit {
 			if x.CommaOk {
 				return &Term{Op: "tuple", Args: []*Term{m.Args[i+1], mkBool(true)}, Typ: x.Type()}, true
 			}
@@ -236,4 +271,60 @@ func (w *Walker) lookupDispatch(m, k *Term, x *ssa.Lookup) (*Term, bool) {
 		return &Term{Op: "tuple", Args: []*Term{z, mkBool(false)}, Typ: x.Type()}, true
 	}
 	return z, true
+}
+
+// ---------------------------------------------------------------------------------------
+// context.WithTimeout as a deadline. `ctx, cancel := context.WithTimeout(context.Background(), d)` reads the
+// clock once and fixes the instant now+d: ctx.Deadline() is that instant, <-ctx.Done() (on a context nobody
+// cancels before the function returns) is a wait of d like <-time.After(d), and Dialer.DialContext(ctx, ..) is
+// Dialer.Dial bounded by that instant. The walker renders these in the canonical forms the transport rules
+// read (a time.Now event, (time.Time).Add(now, d), time.After(d), Dial with the Deadline field set), so a
+// driver written with contexts is the same program to the rules (documented behaviour of package context and
+// net: part of the trusted base).
+// ---------------------------------------------------------------------------------------
+
+func (w *Walker) contextModel(name string, args []*Term, rt types.Type, in ssa.Instruction, fn *ssa.Function, depth int) *Term {
+	switch {
+	case (name == "context.WithTimeout" || name == "context.WithDeadline") && len(args) == 2:
+		parent := args[0]
+		if !(parent.Op == "call" && (parent.Name == "context.Background" || parent.Name == "context.TODO")) {
+			return nil
+		}
+		tup, _ := rt.(*types.Tuple)
+		if tup == nil || tup.Len() != 2 {
+			return nil
+		}
+		var deadline *Term
+		timeT := lookupStdType(w.P, "time", "Time")
+		if name == "context.WithTimeout" {
+			now := &Term{Op: "call", Name: "time.Now", Typ: timeT, Pos: in.Pos()}
+			now.ID = w.fresh("call:time.Now")
+			w.event(Event{Kind: "call", Name: "time.Now", Result: now, Pos: in.Pos(), Instr: in, Fn: fn, Depth: depth})
+			deadline = &Term{Op: "call", Name: "(time.Time).Add", Args: []*Term{now, args[1]}, Typ: timeT}
+		} else {
+			deadline = args[1]
+		}
+		ctx := &Term{Op: "ctx", Args: []*Term{deadline, args[1]}, Typ: tup.At(0).Type(), Name: name}
+		ctx.ID = w.fresh("ctx")
+		cancel := &Term{Op: "fresh", Name: fmt.Sprintf("cancel@%d", ctx.ID), Typ: tup.At(1).Type()}
+		return &Term{Op: "tuple", Args: []*Term{ctx, cancel}, Typ: rt}
+	case name == "invoke:context.Context.Deadline" && len(args) == 1 && args[0].Op == "ctx":
+		return &Term{Op: "tuple", Args: []*Term{args[0].Args[0], mkBool(true)}, Typ: rt}
+	case name == "invoke:context.Context.Done" && len(args) == 1 && args[0].Op == "ctx" && args[0].Name == "context.WithTimeout":
+		return &Term{Op: "call", Name: "time.After", Args: []*Term{args[0].Args[1]}, Typ: rt}
+	}
+	return nil
+}
+
+func lookupStdType(p *Program, pkg, name string) types.Type {
+	for _, pk := range p.Pkgs {
+		for _, imp := range pk.Types.Imports() {
+			if imp.Path() == pkg {
+				if o := imp.Scope().Lookup(name); o != nil {
+					return o.Type()
+				}
+			}
+		}
+	}
+	return nil
 }
